@@ -278,12 +278,92 @@ fn check_tree(ev: &mut Ev, root: &Path, t: &Tree) -> CaseResult {
     if unnameable == 0 {
         check_adaptors(ev, root, t)?;
     }
+    if hash_strs(&t.dirs.iter().map(|d| d.name.as_bytes()).collect::<Vec<_>>()) % 3 == 0 {
+        check_open_routes(ev, root, t, &seen)?;
+    }
     let multi = t.dirs.iter().filter(|d| d.complete() && om::count_dashes(&d.name) >= 2).count();
     if multi > 0 || t.dirs.iter().any(|d| !d.complete()) {
         let names: Vec<&[u8]> = t.dirs.iter().map(|d| d.name.as_bytes()).collect();
         ev.nontrivial(hash_strs(&names) ^ t.dirs.iter().map(|d| d.missing_mask as u64).sum::<u64>());
     }
     Ok(())
+}
+
+/// The same database reached by other spellings of its path and through
+/// symbolic links: a trailing separator, `.` components, `<package dir>/..`, a
+/// link to the database with an absolute and with a relative target, and
+/// `<link into the database>/..` (which the system resolves through the link's
+/// target, not by cutting the text).  Every route the system resolves to the
+/// database directory lists what the plain path lists.
+fn check_open_routes(ev: &mut Ev, root: &Path, t: &Tree, listed: &[String]) -> CaseResult {
+    if cfg!(miri) {
+        return Ok(());
+    }
+    let Some(parent) = root.parent() else { return Ok(()) };
+    let Some(rname) = root.file_name() else { return Ok(()) };
+    let Ok(real) = std::fs::canonicalize(root) else { return Ok(()) };
+    let mut want: Vec<String> = listed.to_vec();
+    want.sort();
+    let mut routes: Vec<(String, std::path::PathBuf)> = vec![
+        ("trailing separator".into(), Path::new(&format!("{}/", root.display())).to_path_buf()),
+        ("dot component".into(), root.join(".")),
+        ("dot components inside".into(), parent.join(".").join(rname).join("./")),
+    ];
+    let mut links: Vec<std::path::PathBuf> = vec![];
+    if let Some(d) = t.dirs.first() {
+        routes.push(("package directory and back".into(), root.join(&d.name).join("..")));
+        // a link next to the database that leads into it: "<link>/.." is the database
+        let l = parent.join(format!("{}.into", rname.to_string_lossy()));
+        let _ = std::fs::remove_file(&l);
+        if std::os::unix::fs::symlink(real.join(&d.name), &l).is_ok() {
+            routes.push(("link into the database, then ..".into(), l.join("..")));
+            links.push(l);
+        }
+    }
+    let la = parent.join(format!("{}.abs", rname.to_string_lossy()));
+    let _ = std::fs::remove_file(&la);
+    if std::os::unix::fs::symlink(&real, &la).is_ok() {
+        routes.push(("link with an absolute target".into(), la.clone()));
+        links.push(la);
+    }
+    let lr = parent.join(format!("{}.rel", rname.to_string_lossy()));
+    let _ = std::fs::remove_file(&lr);
+    if std::os::unix::fs::symlink(rname, &lr).is_ok() {
+        routes.push(("link with a relative target".into(), lr.clone()));
+        links.push(lr);
+    }
+    let mut res: CaseResult = Ok(());
+    for (what, path) in &routes {
+        if std::fs::canonicalize(path).ok().as_ref() != Some(&real) {
+            ev.count("open-routes/not-resolving-here");
+            continue;
+        }
+        ev.eval();
+        ev.count("open-routes/opened");
+        let got: Result<Vec<String>, String> = match PkgDB::open(path) {
+            Err(e) => Err(format!("PkgDB::open failed: {e}")),
+            Ok(db) => {
+                let mut v: Vec<String> = db.take(listed.len() * 2 + 64).filter_map(|i| i.ok()).map(|p| p.pkgname().clone()).collect();
+                v.sort();
+                Ok(v)
+            }
+        };
+        match got {
+            Ok(v) if v == want => {}
+            Ok(v) => {
+                res = Err(format!("opened as {path:?} ({what}; the system resolves it to the database directory) the database lists {v:?}, opened by its plain path {want:?}").into());
+                break;
+            }
+            Err(e) => {
+                res = Err(format!("opened as {path:?} ({what}; the system resolves it to the database directory): {e}").into());
+                break;
+            }
+        }
+    }
+    for l in links {
+        let _ = std::fs::remove_file(l);
+    }
+    res
 }
 
 /// "Each once" also for a caller that does not walk the iterator with a plain
